@@ -353,8 +353,9 @@ def unit_when(which):
     return run
 
 
-def unit_destroy(which):
-    """TorState.circuit_closed / circuit_failed: the built-wait is failed (first fire wins) and the circuit forgotten"""
+def unit_destroy(which, kwshape=('REASON',)):
+    """TorState.circuit_closed / circuit_failed: the built-wait is failed (first fire wins) and the circuit forgotten, whichever of
+    the optional REASON / REMOTE_REASON keywords the event carries"""
     def run(ctx):
         _fns(ctx)
         import txtorcon.torstate as ts
@@ -371,7 +372,8 @@ def unit_destroy(which):
         ctx.input('built_wait_fired', VBool(was_built))
         so = path.heap[('f', obj.oid, '_when_built')]
         ctx.cover('pre_satisfiable', path)
-        for p, r in _call(ctx, path, st, which, [obj], {'REASON': VStr(z3.String('reason'))}):
+        kwv = {k_: VStr(z3.String(k_.lower())) for k_ in kwshape}
+        for p, r in _call(ctx, path, st, which, [obj], kwv):
             if isinstance(r, Raise):
                 cname = r.exc.cls.__name__ if isinstance(r.exc, VInst) else '?'
                 ctx.oblige('no_exception[%s]' % cname, p, B(False))
@@ -771,6 +773,9 @@ def units():
     us.append(('C08/Circuit.when_closed', unit_when('when_closed')))
     us.append(('C08/TorState.circuit_closed', unit_destroy('circuit_closed')))
     us.append(('C08/TorState.circuit_failed', unit_destroy('circuit_failed')))
+    for wh in ('circuit_closed', 'circuit_failed'):
+        for nm, shp in (('no_reason', ()), ('both_reasons', ('REASON', 'REMOTE_REASON')), ('remote_reason_only', ('REMOTE_REASON',))):
+            us.append(('C08/TorState.%s@%s' % (wh, nm), unit_destroy(wh, shp)))
     us.append(('C08/TorState._maybe_create_circuit@known', unit_maybe_create(True)))
     us.append(('C08/TorState._maybe_create_circuit@new', unit_maybe_create(False)))
     for status in CIRC_STATES:
